@@ -22,6 +22,7 @@ func init() {
 		},
 		Run: runC28,
 		Controls: []Control{
+			{Name: "replaced-path-kept-when-the-new-one-is-ineligible", File: "routingtable/adjRIBIn/adj_rib_in.go", Old: "\ta.removePathsFromClients(pfx, oldPaths)\n\n\t// Bail out if this path is considered ineligible\n\tp.HiddenReason = a.validatePath(p)\n\tif p.HiddenReason != route.HiddenReasonNone {\n\t\treturn nil\n\t}\n", New: "\t// Bail out if this path is considered ineligible\n\tp.HiddenReason = a.validatePath(p)\n\tif p.HiddenReason != route.HiddenReasonNone {\n\t\treturn nil\n\t}\n\ta.removePathsFromClients(pfx, oldPaths)\n", Expect: "replaced-paths-withdrawn"},
 			{Name: "adj-rib-in-created-before-the-open-is-evaluated", File: "protocols/bgp/server/bmp_router.go", Old: "\t}, fsm)\n\n\trib6, found := fsm.peer.vrf.RIBByName(\"inet6.0\")", New: "\t}, fsm)\n\tfsm.ipv4Unicast.bmpInit()\n\n\trib6, found := fsm.peer.vrf.RIBByName(\"inet6.0\")", Expect: "session-snapshot-after-negotiation"},
 			{Name: "ignored-peers-survive-the-session", File: "protocols/bgp/server/bmp_router.go", Old: "\tr.ignoredPeers = make(map[bnet.IP]struct{})\n}", New: "}", Expect: "session-state-ends-with-session"},
 			{Name: "decode-options-cached-in-the-neighbor", File: "protocols/bgp/server/bmp_router.go", Old: "\topt := s.fsm.decodeOptions()\n\topt.Use32BitASN = !msg.PerPeerHeader.GetAFlag()\n", New: "\topt := n.opt\n\topt.Use32BitASN = !msg.PerPeerHeader.GetAFlag()\n", Expect: "per-message-decode-options"},
@@ -41,6 +42,11 @@ func runC28(c *core.Ctx) {
 	sessionStateEndsWithSession(c)
 	perMessageOptionsAreFresh(c)
 	snapshotAfterNegotiation(c)
+	// the monitored sessions' tables are fed through the same Adj-RIB-In → Loc-RIB → observer pipeline as real sessions:
+	// its propagation rules (C05: what the Adj-RIB-In tells the Loc-RIB; C04: what the Loc-RIB tells its observers) are
+	// necessary for `tables contain exactly … and table observers are informed` too and are run here under C28 as well
+	runC05(c)
+	runC04(c)
 	p := c.P
 	disp := c.MustFunc(srv + ".(*fsmAddressFamily).bmpDispose")
 	down := c.MustFunc(srv + ".(*neighborManager)._neighborDown")
